@@ -226,7 +226,7 @@ class HistogramND(HistogramBase):
     ) -> Union[np.ndarray, Sequence[np.ndarray]]:
         if axis is not None:
             axis = self._get_axis(axis)
-            return self.edges[self._get_axis(axis)]
+            return self._binnings[axis].numpy_bins  # (Other axes may have gaps)
         else:
             edges = [self.get_bin_edges(i) for i in range(self.ndim)]
             return np.meshgrid(*edges, indexing="ij")
